@@ -310,7 +310,9 @@ def step (st : State) (w : List String) : State × String :=
     | none => (st, "bad-op")
   | ["pool", "subq", pat] =>
     -- a sub-query whose handler writes nothing returns no response, whatever the pooled writer carried before
-    let outs := (pat.toList.zipIdx).map fun (c, i) => if c == 'w' then toString (100 + i) else "none"
+    let qs : List (SubKind × Nat) := (pat.toList.zipIdx).map fun (c, i) =>
+      ((if c == 'w' then SubKind.wrote else if c == 'e' then SubKind.localFail else SubKind.silent), 100 + i)
+    let outs := (subMany {} qs).map fun o => match o with | some v => toString v | none => "none"
     (st, ",".intercalate outs)
   | "usrv" :: _ => (st, "unmodelled")
   | "tsrv" :: _ => (st, "unmodelled")
